@@ -82,7 +82,7 @@ Definition type_name (ty : utype) : list N :=
   | UTSigned I8 => s_i8 | UTSigned I16 => s_i16 | UTSigned I32 => s_i32 | UTSigned I64 => s_i64
   | UTSigned UnspecifiedS => []
   | UTNamed s => s
-  | UTTuple _ | UTArray _ _ | UTArrayConst _ _ => []     (* not named by an identifier *)
+  | UTTuple _ | UTArray _ _ | UTArrayConst _ _ | UTArrayConstExpr _ _ => []     (* not named by an identifier *)
   end.
 
 Definition parens (s : list token) : list token := tk TLeftParen :: s ++ [tk TRightParen].
@@ -249,7 +249,7 @@ Definition ops_at (k : nat) : opt :=
 
 Definition loop_at (k : nat) (pe : pstate -> pres uexpr) (n : nat) (x : uexpr) (s : pstate) : pres uexpr :=
   match k with
-  | 11 => cast_loop n x s
+  | 11 => cast_loop pe n x s
   | 12 | 13 | 0 => POk x s
   | 14 => postfix_loop pe n x s
   | _ => binloop (ops_at k) (parse_at (S k) pe) n x s
@@ -802,10 +802,10 @@ Proof.
 Qed.
 
 (* casts *)
-Lemma type_tok_ok ty : wf_type ty -> forall n rest b,
-  parse_type (S n) (PState (tk (TIdentifier (type_name ty)) :: rest) b) = POk ty (PState rest b).
+Lemma type_tok_ok ty : wf_type ty -> forall pe n rest b,
+  parse_type pe (S n) (PState (tk (TIdentifier (type_name ty)) :: rest) b) = POk ty (PState rest b).
 Proof.
-  intros H n rest b. cbn [parse_type]. rewrite !nm_hd.
+  intros H pe n rest b. cbn [parse_type]. rewrite !nm_hd.
   replace (teqb (TIdentifier (type_name ty)) TLeftParen) with false by reflexivity.
   replace (teqb (TIdentifier (type_name ty)) TLeftBracket) with false by reflexivity.
   unfold expect_identifier. cbn [toks sla]. now rewrite H.
@@ -1463,7 +1463,88 @@ Module StmtExamples.
     pb "let e = E::;" = None /\ pb "let e = E::1;" = None /\ pb "let e = E::A(;" = None /\ pb "let e = E::A(1 2);" = None.
   Proof. repeat split; vm_compute; reflexivity. Qed.
 
-  (* still outside: an array type whose size is a constant expression *)
-  Example ex_outside : exists o, parse_block_text 50 (toks_of "let a: [u8; const { N + 1 }] = b;") = POutside o.
-  Proof. eexists. vm_compute. reflexivity. Qed.
+  (* an array type whose size is a constant expression *)
+  Example ex_const_size : pb "let a: [u8; const { N + 1 }] = b; x as [bool; const { max(A, P::n - 2usize) }]" =
+    Some [SLet (pid "a") (Some (UTArrayConstExpr (UTUnsigned U8) (CAdd (CIdent (x_ "N")) (CNumUnsigned 1 UnspecifiedU)))) (v "b");
+          SExpr (UCast (UTArrayConstExpr UTBool
+                         (CMax [CIdent (x_ "A");
+                                CSub (CExternalValue (x_ "P") (x_ "n")) (CNumUnsigned 2 Usize)])) (v "x"))].
+  Proof. vm_compute. reflexivity. Qed.
+
+  Example ex_const_size_errors :
+    pb "let a: [u8; const { N * 2 }] = b;" = None /\ pb "let a: [u8; const N] = b;" = None /\
+    pb "let a: [u8; const { f(1) }] = b;" = None.
+  Proof. repeat split; vm_compute; reflexivity. Qed.
 End StmtExamples.
+
+(* ------------------------------------------------------------------ whole programs *)
+
+Module ProgramExamples.
+  Local Open Scope string_scope.
+  Import ParseExamples StmtExamples.
+  Definition pp (s : string) : option uprogram :=
+    let ts := toks_of s in
+    match parse_program_text (fuel_for_tokens ts) ts with POk prog _ => Some prog | _ => None end.
+  Definition u8 := UTUnsigned U8.
+
+  (* all four kinds of items; `pub fn`, a `mut` parameter, unit and tuple variants, trailing commas;
+     struct fields are sorted by name *)
+  Example ex_program : pp
+    "const N: usize = max(PARTY_0::N, 2 + K) - 1usize;
+     const FLAG: bool = true;
+     struct S { b: [u8; N], a: (bool, u16), }
+     enum E { A, B(u8, S,), C(), }
+     fn helper(x: u8) -> u8 { x + 1 }
+     pub fn main(mut acc: u8, s: S,) -> E { acc += helper(s.b[0]); E::B(acc, s) }"
+    = Some (UProgram
+        [(x_ "N", UConstDef (UTUnsigned Usize)
+                    (CSub (CMax [CExternalValue (x_ "PARTY_0") (x_ "N"); CAdd (CNumUnsigned 2 UnspecifiedU) (CIdent (x_ "K"))])
+                          (CNumUnsigned 1 Usize)));
+         (x_ "FLAG", UConstDef UTBool CTrue)]
+        [(x_ "S", [(x_ "a", UTTuple [UTBool; UTUnsigned U16]); (x_ "b", UTArrayConst u8 (x_ "N"))])]
+        [(x_ "E", [VUnit (x_ "A"); VTuple (x_ "B") [u8; UTNamed (x_ "S")]; VTuple (x_ "C") []])]
+        [(x_ "helper", UFnDef false (x_ "helper") u8 [UParam false (x_ "x") u8] [SExpr (UOp BAdd (v "x") (n 1))]);
+         (x_ "main", UFnDef true (x_ "main") (UTNamed (x_ "E"))
+                       [UParam true (x_ "acc") u8; UParam false (x_ "s") (UTNamed (x_ "S"))]
+                       [SVarAssign (x_ "acc") []
+                          (UOp BAdd (v "acc") (UFnCall (x_ "helper") [UArrayAccess (UStructAccess (v "s") (x_ "b")) (UNumUnsigned 0 Usize)]));
+                        SExpr (UEnumLiteral (x_ "E") (x_ "B") (Some [v "acc"; v "s"]))])]).
+  Proof. vm_compute. reflexivity. Qed.
+
+  (* `pub` is accepted (and ignored) before const / struct / enum, and alone at the end of the text;
+     a later definition of a name replaces the earlier one (HashMap::insert); the empty program *)
+  Example ex_pub_and_duplicates : pp
+    "pub struct T { } pub enum F { X } pub const C: u8 = 1u8; fn f() -> u8 { 1u8 } fn g() -> () { } fn f() -> u8 { 2u8 } pub"
+    = Some (UProgram [(x_ "C", UConstDef u8 (CNumUnsigned 1 U8))] [(x_ "T", [])] [(x_ "F", [VUnit (x_ "X")])]
+              [(x_ "g", UFnDef false (x_ "g") (UTTuple []) [] []);
+               (x_ "f", UFnDef false (x_ "f") u8 [] [SExpr (UNumUnsigned 2 U8)])]) /\
+    pp "" = Some (UProgram [] [] [] []).
+  Proof. split; vm_compute; reflexivity. Qed.
+
+  (* a tuple variant whose first field type does not start with an identifier is not accepted
+     (parse_variant only looks for an identifier there); later fields may be any type *)
+  Example ex_variant_first_field :
+    pp "enum E { A((u8, u8)) }" = None /\ pp "enum E { A([u8; 2]) }" = None /\
+    pp "enum E { A(u8, (u8, bool), [u8; 2]) }" =
+      Some (UProgram [] [] [(x_ "E", [VTuple (x_ "A") [u8; UTTuple [u8; UTBool]; UTArray u8 2]])] []).
+  Proof. repeat split; vm_compute; reflexivity. Qed.
+
+  Example ex_program_errors :
+    pp "let x = 1;" = None /\                       (* not an item *)
+    pp "pub pub fn f() -> u8 { 1u8 }" = None /\      (* `pub` twice *)
+    pp "fn f() { }" = None /\                        (* no return type *)
+    pp "fn f() -> u8 { 1u8 " = None /\               (* missing brace *)
+    pp "fn f(x u8) -> u8 { x }" = None /\
+    pp "fn f(, x: u8) -> u8 { x }" = None /\
+    pp "struct S { a: u8 b: u8 }" = None /\
+    pp "struct S ( a: u8 )" = None /\
+    pp "enum E { }" = None /\                        (* an enum has at least one variant *)
+    pp "enum E { A B }" = None /\
+    pp "const C: u8 = f(1);" = None /\               (* not a constant expression *)
+    pp "const C: u8 = 1u8 * 2u8;" = None /\
+    pp "const C: u8 = 1u8" = None /\                 (* missing `;` *)
+    pp "const C = 1u8;" = None /\                    (* missing type *)
+    pp "const C: u8 = P::n(1);" = None /\            (* only the unit form `PARTY::NAME` *)
+    pp "fn f() -> u8 { 1u8 } ;" = None.
+  Proof. repeat split; vm_compute; reflexivity. Qed.
+End ProgramExamples.
